@@ -333,6 +333,7 @@ def opInsChild (f : Forest) (id target : Nat) : Res :=
     match t.sid.bind f.ent with
     | none => .refuse "OpaqParent"
     | some te =>
+      if id != target && (f.subtree id).contains target then .refuse "Cycle" else
       if !isInnerKind te.kind then .done .einval f else
       -- lyd_insert_check_schema(parent->schema, NULL, node->schema)
       if i.sid.isSome && (i.sid.bind f.dataParentSid) != some te.sid then .done .einval f else
@@ -355,6 +356,7 @@ def Forest.siblingSchemaOk (f : Forest) (i t : NInfo) : Bool :=
 def opInsSibling (f : Forest) (id target : Nat) : Res :=
   match f.info id, f.info target with
   | some i, some t =>
+    if id != target && (f.subtree id).contains target then .refuse "Cycle" else
     if id == target then .done .einval f else
     if !f.siblingSchemaOk i t then .done .einval f else
     if i.sid.isSome && t.sid.isNone then .refuse "OutOfFragment" else
@@ -375,6 +377,7 @@ def opInsSibling (f : Forest) (id target : Nat) : Res :=
 def opInsRel (after : Bool) (f : Forest) (id target : Nat) : Res :=
   match f.info id, f.info target with
   | some i, some t =>
+    if id != target && (f.subtree id).contains target then .refuse "Cycle" else
     if id == target then .done .einval f else
     if !f.siblingSchemaOk i t then .done .einval f else
     match i.sid.bind f.ent with
